@@ -21,7 +21,6 @@ Open Scope N_scope.
 #[local] Arguments N.leb : simpl never.
 
 (* ---------- a text without CR is its own line split ---------- *)
-Definition nocr (s : list char) : bool := forallb (fun c => negb (c =? 13)) s.
 Lemma split_aux_nocr : forall s cur, nocr s = true -> concat (split_aux false cur s) = rev cur ++ s.
 Proof.
   induction s as [|c s IH]; intros cur H.
@@ -41,58 +40,11 @@ Proof.
   rewrite after_idx_0. reflexivity.
 Qed.
 
-(* ---------- the text of supported pieces has no CR; a piece has at least one character ---------- *)
-Lemma nocr_app : forall a b, nocr (a ++ b) = nocr a && nocr b.
-Proof. intros. unfold nocr. apply forallb_app. Qed.
-Lemma nocr_escape : forall q v, (q =? 13) = false -> nocr v = true -> nocr (escape q v) = true.
-Proof.
-  intros q v Hq. induction v as [|c v IH]; intro H; [reflexivity|]. unfold nocr in *. cbn [forallb] in H. apply andb_true_iff in H.
-  destruct H as [Hc H]. unfold escape. cbn [flat_map]. fold (escape q v). rewrite forallb_app, (IH H), andb_true_r.
-  destruct (c =? q); cbn [forallb]; rewrite ?Hq, ?Hc; reflexivity.
-Qed.
-Lemma idc_nocr : forall n, forallb is_idc n = true -> nocr n = true.
-Proof.
-  intros n H. unfold nocr. rewrite forallb_forall in *. intros x Hx. specialize (H x Hx).
-  unfold is_idc, is_alnum, is_alpha, is_lower, is_upper, is_digit, in_range in H. lia.
-Qed.
-Lemma supported_nocr : forall t, supported_kind t = true -> nocr (tok_text t) = true.
-Proof.
-  intros [k v ts te tl tt] Hs. unfold supported_kind in Hs. unfold tok_text, tok_text_gen. cbn [t_kind t_val] in *.
-  destruct v as [|n|s|? ? ? ?|txt n|?|c|?].
-  - destruct k; try discriminate Hs; try reflexivity. cbn [kind_text].
-    pose proof (is_keyword_good _ Hs) as G. unfold kw_good in G. apply andb_true_iff in G. destruct G as [_ G]. apply idc_nocr. exact G.
-  - destruct k; try discriminate Hs. apply orb_true_iff in Hs. destruct Hs as [Hs|Hs].
-    + unfold basic_ident_ok in Hs. destruct (validate_basic_identifier n) eqn:EV; [discriminate|]. destruct (vbi_ok _ EV) as [G3 G4].
-      destruct n as [|a n1]; [reflexivity|]. cbn [hd_sat] in G3.
-      assert (H92 : (a =? 92) = false) by (unfold is_alpha, is_lower, is_upper, in_range in G3; lia).
-      unfold ext_ident_text. rewrite H92. cbn [andb]. apply idc_nocr. exact G4.
-    + destruct (ext_ident_shape _ Hs) as [v [En [Hv [Hnl ET]]]]. rewrite ET.
-      assert (Hn : nocr v = true).
-      { subst n. cbn [ext_ident_ok] in Hs. apply andb_true_iff in Hs. destruct Hs as [_ Hs].
-        assert (E : removelast (v ++ [92]) = v) by (apply removelast_last). rewrite E in Hs.
-        unfold nocr. rewrite forallb_forall in *. intros x Hx. specialize (Hs x Hx). unfold nonl in Hs. lia. }
-      change (92 :: escape 92 v ++ [92]) with ([92] ++ escape 92 v ++ [92]). rewrite !nocr_app, (nocr_escape 92 v eq_refl Hn). reflexivity.
-  - destruct k; try discriminate Hs.
-    assert (Hn : nocr s = true).
-    { unfold nocr. rewrite forallb_forall in *. intros x Hx. specialize (Hs x Hx). unfold nonl in Hs. lia. }
-    change (34 :: escape 34 s ++ [34]) with ([34] ++ escape 34 s ++ [34]). rewrite !nocr_app, (nocr_escape 34 s eq_refl Hn). reflexivity.
-  - destruct k; discriminate Hs.
-  - destruct k; try discriminate Hs. unfold plain_int_ok in Hs. apply andb_true_iff in Hs. destruct Hs as [_ Hs].
-    destruct (dec_value 0 txt) as [v|] eqn:EV; [|discriminate]. clear Hs. revert EV. generalize 0 as acc.
-    induction txt as [|b txt IH]; intros acc EV; [reflexivity|]. cbn [dec_value] in EV. unfold nocr. cbn [forallb].
-    destruct (b =? 95) eqn:E95.
-    + replace (b =? 13) with false by lia. apply (IH _ EV).
-    + destruct (is_digit b) eqn:Ed; [|discriminate]. cbv zeta in EV. destruct (10 * acc + (b - 48) <? TWO64); [|discriminate].
-      replace (b =? 13) with false by (unfold is_digit, in_range in Ed; lia). apply (IH _ EV).
-  - destruct k; discriminate Hs.
-  - destruct k; try discriminate Hs. apply andb_true_iff in Hs. destruct Hs as [_ Hc]. unfold nocr. cbn [forallb]. rewrite Hc. reflexivity.
-  - destruct k; discriminate Hs.
-Qed.
-Lemma pieces_nocr : forall ps last, pieces_ok last ps = true -> pieces_supported ps = true ->
+Lemma pieces_nocr : forall ps last, pieces_ok last ps = true -> pieces_good ps ->
   nocr (pieces_text ps) = true /\ (length ps <= length (pieces_text ps))%nat.
 Proof.
   induction ps as [|p ps IH]; intros last H HS; [split; [reflexivity|cbn; lia]|].
-  unfold pieces_supported in HS. cbn [forallb] in HS. apply andb_true_iff in HS. destruct HS as [HSp HS].
+  inversion HS as [|? ? HSp HS']; subst. clear HS. rename HS' into HS.
   unfold pieces_text. cbn [flat_map]. fold (pieces_text ps). rewrite nocr_app, app_length. cbn [pieces_ok length] in *.
   destruct p as [c|v|v|t].
   - apply andb_true_iff in H. destruct H as [Hc H]. destruct (IH _ H HS) as [A B]. rewrite A. cbn [piece_text length].
@@ -109,11 +61,11 @@ Proof.
       exfalso. rewrite <- not_true_iff_false in H1. apply H1. apply existsb_exists. exists x. split; assumption. }
     change (47 :: 42 :: v ++ [42; 47]) with ([47; 42] ++ v ++ [42; 47]). rewrite !nocr_app, Hn. reflexivity.
   - apply andb_true_iff in H. destruct H as [H H3]. apply andb_true_iff in H. destruct H as [_ Hne]. destruct (IH _ H3 HS) as [A B].
-    cbn [piece_text]. rewrite A, (supported_nocr _ HSp). split; [reflexivity|]. destruct (tok_text t); [discriminate|cbn [length]; lia].
+    cbn [piece_text]. rewrite A, (proj1 (proj2 HSp)). split; [reflexivity|]. destruct (tok_text t); [discriminate|cbn [length]; lia].
 Qed.
 
 (* ---------- TokenStream::new on the text of a piece list ---------- *)
-Theorem lex_pieces : forall ps, pieces_ok None ps = true -> pieces_supported ps = true ->
+Theorem lex_pieces : forall ps, pieces_ok None ps = true -> pieces_good ps ->
   exists ts', lex_all (pieces_text ps) = Done ts' [] /\ map tok_kv ts' = map tok_kv (lex_toks ps)
               /\ flat_map tok_keys ts' = attached_keys (S (length ps)) ps.
 Proof.
@@ -127,6 +79,16 @@ Proof.
   assert (Hn : (length ps < lex_fuel s)%nat) by (unfold lex_fuel; lia).
   apply (lex_pieces_aux (split_lines s) HD (lex_fuel s) HF (length ps) ps (lex_fuel s) tk_start (le_n _) Hn Hn HA Hok Hs eq_refl).
 Qed.
+
+Lemma pieces_supported_good : forall ps, pieces_supported ps = true -> pieces_good ps.
+Proof.
+  induction ps as [|p ps IH]; intro H; [constructor|]. unfold pieces_supported in H. cbn [forallb] in H. apply andb_true_iff in H.
+  destruct H as [Hp H]. constructor; [|apply IH; exact H]. destruct p; try exact I. apply supported_good. exact Hp.
+Qed.
+Theorem lex_pieces_supported : forall ps, pieces_ok None ps = true -> pieces_supported ps = true ->
+  exists ts', lex_all (pieces_text ps) = Done ts' [] /\ map tok_kv ts' = map tok_kv (lex_toks ps)
+              /\ flat_map tok_keys ts' = attached_keys (S (length ps)) ps.
+Proof. intros ps H1 H2. apply (lex_pieces ps H1 (pieces_supported_good ps H2)). Qed.
 
 (* ---------- what a trace writes: its tokens, in order, and their comments ---------- *)
 Definition fmt_key (c : comment) : bool * list char := (c_multi c, if c_multi c then c_val c else trim_end (c_val c)).
@@ -246,20 +208,24 @@ Lemma trimk_ckey : forall c, trimk (ckey c) = comment_key c.
 Proof. reflexivity. Qed.
 Lemma tok_keys_ckey : forall t, tok_keys t = map ckey (tok_comments t).
 Proof. intro t. unfold tok_keys, tok_comments, trail_keys. rewrite map_app. destruct (t_trail t); reflexivity. Qed.
-Lemma pieces_supported_toks : forall ps, pieces_supported ps = forallb supported_kind (lex_toks ps).
+Lemma pieces_good_toks : forall ps, Forall tok_good (lex_toks ps) -> pieces_good ps.
 Proof.
-  induction ps as [|p ps IH]; [reflexivity|]. unfold pieces_supported in *. cbn [forallb]. destruct p; cbn [lex_toks flat_map app forallb]; rewrite IH; reflexivity.
+  induction ps as [|p ps IH]; intro H; [constructor|]. destruct p; cbn [lex_toks flat_map app] in H;
+    try (constructor; [exact I|apply IH; exact H]).
+  inversion H; subst. constructor; [assumption|apply IH; assumption].
 Qed.
+Lemma supported_all_good : forall ts, forallb supported_kind ts = true -> Forall tok_good ts.
+Proof. intros ts H. rewrite forallb_forall in H. apply Forall_forall. intros t Ht. apply supported_good. apply H. exact Ht. Qed.
 
 (* ---------- the round trip ---------- *)
-Theorem render_lex_roundtrip_ops : forall l text,
-  render_ops l = Some text -> ops_sep_ok l = true -> forallb supported_kind (ops_tokens l) = true ->
+Theorem render_lex_roundtrip_good : forall l text,
+  render_ops l = Some text -> ops_sep_ok l = true -> Forall tok_good (ops_tokens l) ->
   exists ts', lex_all text = Done ts' [] /\ same_stream (ops_tokens l) ts'.
 Proof.
   intros l text HR HS HK. unfold render_ops in HR. unfold ops_sep_ok in HS.
   destruct (render_pieces l) as [ps|] eqn:EP; [|discriminate]. injection HR as <-.
   apply andb_true_iff in HS. destruct HS as [Hok Hat]. destruct (render_pieces_eff _ _ EP) as [ET EK].
-  assert (Hsup : pieces_supported ps = true) by (rewrite pieces_supported_toks, ET; exact HK).
+  assert (Hsup : pieces_good ps) by (apply pieces_good_toks; rewrite ET; exact HK).
   destruct (lex_pieces ps Hok Hsup) as [ts' [EL [EKV EKS]]]. exists ts'. split; [exact EL|]. split.
   - rewrite EKV, ET. reflexivity.
   - unfold all_attached, keys_eqb in Hat. destruct (list_eq_dec key_eq_dec _ _) as [Eq|]; [|discriminate]. rewrite Eq, EK in EKS.
@@ -269,6 +235,10 @@ Proof.
     rewrite E1, EKS. clear. induction (ops_tokens l) as [|t ts IH]; [reflexivity|]. cbn [flat_map]. rewrite !map_app, IH. f_equal.
     unfold tok_fmt_keys. rewrite !map_map. apply map_ext. intro c. apply trimk_fmt.
 Qed.
+Theorem render_lex_roundtrip_ops : forall l text,
+  render_ops l = Some text -> ops_sep_ok l = true -> forallb supported_kind (ops_tokens l) = true ->
+  exists ts', lex_all text = Done ts' [] /\ same_stream (ops_tokens l) ts'.
+Proof. intros l text HR HS HK. apply (render_lex_roundtrip_good l text HR HS (supported_all_good _ HK)). Qed.
 
 Lemma ops_tokens_trace : forall s0 l, ops_tokens (trace_of s0 l) = map fst l.
 Proof.
